@@ -333,6 +333,7 @@ theorem pureAt_succ (p : Prog) (hp : tcheck p = .ok) (fuel : Nat) (ih : PureAt p
       have := Eff.le_pure hpo.1.1
       rw [this] at hco
       exact absurd hco.1.1.1 (by decide)
+    | choose => simp [Stmt.parseOk] at hpo
     | callS mk m a =>
       simp only [Stmt.parseOk, Bool.and_eq_true, decide_eq_true_eq] at hpo
       simp only [Stmt.checkOk, Bool.and_eq_true] at hco
@@ -420,6 +421,7 @@ def Stmt.clean : Stmt → Prop
   | .setBuf s e => s.rootedAtThisOrArgs = false ∧ (∀ m ∈ s.marks, m = .pure) ∧ (∀ m ∈ e.marks, m = .pure)
   | .bind _ s => ∀ m ∈ s.marks, m = .pure
   | .copy _ _ _ => False
+  | .choose => False
   | .callS mk _ a => mk = .pure ∧ ∀ m ∈ a.marks, m = .pure
 
 end WuffsVerif.Effects
@@ -516,6 +518,7 @@ theorem clean_of_rules (p : Prog) : ∀ (s : Stmt), s.parseOk .pure = true → s
   | .callS mk _ a, hp, _ => by
     simp only [Stmt.parseOk, Bool.and_eq_true, decide_eq_true_eq] at hp
     exact ⟨Eff.le_pure hp.2, (effect_pure_iff a).1 hp.1.1⟩
+  | .choose, hp, _ => by simp [Stmt.parseOk] at hp
 
 /-- **accepted_pure_is_clean**: in an accepted program every pure method's body
     is clean and its result expression carries no impure mark. -/
@@ -535,7 +538,7 @@ def demo : Prog :=
   [ ⟨.pure, .seq (.setLoc 0 (.add .arg (.fld 0))) (.bind 1 (.fld 0)), .add (.loc 0) (.arr 0 1)⟩,
     ⟨.impure, .seq (.setFld 0 (.call .pure 0 (.lit 5))) (.setBuf (.arg 0) (.lit 7)), .fld 0⟩ ]
 
-def demoWorld : World := ⟨[10, 20], [[1, 2, 3, 4], [5, 6, 7, 8]], [[9, 9], [0]]⟩
+def demoWorld : World := ⟨[10, 20], [[1, 2, 3, 4], [5, 6, 7, 8]], [[9, 9], [0]], 0⟩
 def demoCaller : Frame := ⟨0, 0, [0, 0], [none, none], [some (.buf 0), none], none⟩
 
 example : tcheck demo = .ok := by decide
@@ -577,6 +580,11 @@ example : (execS [⟨.impure, .setFld 0 (.lit 77), .lit 0⟩] 9 .pure
     (.bind 1 (.sub 0 (some (.call .impure 0 (.lit 2))) none)) demoWorld demoCaller).map (·.1.flds)
       = some [77, 20] := by decide
 
+/-- `choose` re-points a function pointer stored in the receiver: not in a pure method. -/
+example : tcheck [⟨.pure, .choose, .lit 0⟩] = .rejectParse := by decide
+example : tcheck [⟨.impure, .choose, .lit 0⟩] = .ok := by decide
+example : (callM [⟨.impure, .choose, .lit 0⟩] 9 0 0 demoCaller demoWorld).map (·.2.choice) = some 1 := by decide
+
 /-- Loops: the condition is effect-free, the body obeys the same rules, and a
     loop really iterates (three times, until the counter stops it). -/
 example : tcheck [⟨.pure, .loop .arg (.setFld 1 (.lit 5)), .lit 0⟩] = .rejectParse := by decide
@@ -591,7 +599,7 @@ example : (callM [⟨.impure, .loop (.lit 1) (.setFld 0 (.add (.fld 0) (.lit 1))
     this pure method, which the unrepaired checker accepted, writes to the
     palette buffer. -/
 example :
-    (execS [] 5 .pure (.seq (.bind 0 .pal) (.setBuf (.loc 0) (.lit 1))) ⟨[], [], [[4, 4]]⟩
+    (execS [] 5 .pure (.seq (.bind 0 .pal) (.setBuf (.loc 0) (.lit 1))) ⟨[], [], [[4, 4]], 0⟩
       ⟨0, 0, [], [], [none, none], some (.buf 0)⟩).map (·.1.heap) = some [[1, 4]] := by decide
 
 end WuffsVerif.Props.C10
